@@ -459,16 +459,15 @@ class ModelExport:
                     target_types = model.List(
                         [type.to_model() for type in op.cfg_outputs]
                     )
-                    targets = [
-                        self.link_name(InPort(child, i))
-                        for i in range(child_data._num_inps)
-                    ]
+                    # The exit block has a single control flow input.
+                    targets = [self.link_name(InPort(child, 0))]
                 case DataflowBlock() as op:
                     if source is None:
                         source_types = model.List(
                             [type.to_model() for type in op.inputs]
                         )
-                        source = self.link_name(OutPort(child, 0))
+                        # Control enters the region at the input of the entry block.
+                        source = self.link_name(InPort(child, 0))
 
                     child_node = self.export_node(child)
 
@@ -562,12 +561,17 @@ class ModelExport:
 
 def _num_value_ports(op: Op) -> tuple[int, int]:
     """The number of input and output ports that a node lists in the model:
-    the value ports of its dataflow signature. The static input of a call or
+    the value ports of its dataflow signature, or the control flow ports of a
+    basic block. The static input of a call or
     load and the state order ports are not listed. The port counts tracked by
     the hugr cannot be used: they cover the static input once it is linked and
     miss trailing ports that are not linked.
     """
     match op:
+        case DataflowBlock():
+            # A basic block has one control flow input and one control flow
+            # output per successor.
+            return 1, len(op.sum_ty.variant_rows)
         case Call():
             sig = op.instantiation
         case DataflowOp():
